@@ -24,13 +24,18 @@
    C15_solve_exact / C15_solve_exact_residual — WHENEVER solve answers (the code's test |det a| >= 1e-12 passed), the
    returned matrix satisfies A X = B exactly, for every size n >= 2 and every right-hand side: the pivot hypothesis
    of C15_solve is discharged.
-   NOT PROVED: multiplicativity of the determinant (checked on the implementation's outputs); nothing about
+   C15_det_mul — the determinant is multiplicative: det (a b) = det a * det b for square matrices of any size >= 2.
+   Every function of a matrix that respects entrywise equality, changes sign under a row exchange, is unchanged by
+   adding a multiple of one row to another and scales with a row is carried through the code's elimination like the
+   determinant, and on an upper-triangular matrix equals (product of the diagonal) * (its value on the identity) —
+   or 0 when a diagonal entry is zero; applied to det and to A |-> det (A b) (Det_mult.v).
+   NOT PROVED: nothing about
    floating-point rounding: the implementation's f64 solution is compared with the exact one within 2^-30 and its
    residual is bounded on every case; QR (Q R = A, Q^T Q = I, R upper) and the norm definitions are checked on the
    implementation's outputs in exact / bounded arithmetic. *)
 From Coq Require Import QArith.
 Local Close Scope Q_scope.
-From ArrRs Require Import Index Axis Linsolve Linsolve_proofs Lu_sums Lu_step Lu_solve Det_tri Det_fun Det_elim.
+From ArrRs Require Import Index Axis Linsolve Linsolve_proofs Lu_sums Lu_step Lu_solve Det_tri Det_fun Det_elim Det_mult.
 
 Theorem C15_det_2 : forall a b c d, (det [[a; b]; [c; d]] == a * d - b * c)%Q.
 Proof. exact det_2. Qed.
@@ -91,6 +96,16 @@ Proof. exact det_nonzero_pivots. Qed.
 
 Theorem C15_pivots_nonzero_det : forall a n, 2 <= n -> dims n a -> pivots_ok a -> ~ (det a == 0)%Q.
 Proof. exact pivots_nonzero_det. Qed.
+
+(* the determinant is multiplicative *)
+Theorem C15_det_mul : forall n (a b : qmat), 2 <= n -> dims n a -> dims n b ->
+  (det (map (fun r => map (fun c => qsum (fun k => qget a r k * qget b k c) n) (seq 0 n)) (seq 0 n)) == det a * det b)%Q.
+Proof. exact det_mul. Qed.
+
+Example C15_det_mul_example :
+  let a := [[2;1;1];[4;3;3];[8;7;9]]%Q in let b := [[0;1;2];[1;0;3];[4;-3;8]]%Q in
+  (det (qmat_mul 3 a b) == det a * det b)%Q /\ ~ (det (qmat_mul 3 a b) == 0)%Q.
+Proof. exact det_mul_example. Qed.
 
 (* SOLVE with no hypothesis on the pivots: whenever solve answers, A X = B exactly *)
 Theorem C15_solve_exact : forall a b x n k,
